@@ -18,9 +18,10 @@ REGISTRY = {
         note=_BOUNDED),
     "C13": dict(
         modules=["harness.c13_numeric", "harness.c13_fields"], e2=True, engine="E2-pybmc",
-        technique="bounded model checking of the real split_ranges/to_sortable source (AST -> z3 bit-vectors, unwinding + no-overflow obligations); QF_FP for the float encoding; CrossHair symbolic bound/flag codes over real NUMERIC/DATETIME fields end to end",
+        technique="bounded model checking of the real split_ranges/to_sortable source (AST -> z3 bit-vectors, unwinding + no-overflow obligations); QF_FP for the float encoding; pybmc (Int theory) for the datetime <-> microseconds encoding; CrossHair symbolic bound/flag codes over real NUMERIC/DATETIME fields end to end",
         text="pybmc interprets the current source of whoosh.util.numeric over z3 bit-vectors; for every bit width and shift step the "
-             "negated exact-cover property is unsat over the whole domain; unwinding and no-overflow obligations discharged.  End to end: "
+             "negated exact-cover property is unsat over the whole domain; unwinding and no-overflow obligations discharged; datetime_to_long/long_to_datetime "
+             "are a strictly monotone bijection for every microsecond between datetime.min and datetime.max.  End to end: "
              "12 field configurations (widths, signedness, steps incl. those dividing bits-1, float, Decimal, DATETIME) with edge values; "
              "ranges with symbolic bounds and exclusivity flags match exactly the documents in the interval; sorting and column read-back.",
         note=_BOUNDED),
@@ -67,7 +68,8 @@ REGISTRY["C05"] = dict(
     modules=["harness.c05_topn"],
     technique="CrossHair symbolic query codes driving the real collectors/matchers with block-quality pruning on multi-block posting lists; limit=k vs exhaustive prefix",
     text="For every generated query, weighting model, layout and k the real limited search (replace/skip_to_quality engaged: measured per "
-         "path) must return exactly the k-prefix of the exhaustive ranking with identical scores, and the exact total.",
+         "path) must return exactly the k-prefix of the exhaustive ranking with identical scores, and the exact total; also under ReverseWeighting, "
+         "FunctionWeighting and a weighting with a final() hook (no usable bounds: the result alone is asserted).",
     note=_BOUNDED)
 
 REGISTRY["C07"] = dict(
